@@ -188,6 +188,78 @@ def job_msm(n):
     return {"group": "MSM loop n=%d" % n, "recs": recs, "info": ctx_info(ctx), "harness": h, "params": params}
 
 
+# ------------------------------------------------------------------ O3: curve formulas (rational functions)
+PROGF = None
+BUILDF = None
+
+
+def job_formulas():
+    from gosmt import field
+    from gosmt.field import FVal, GNARK_FR
+    from gosmt.harness import _name
+    from checks.c01 import real_to_mod
+    h = "VerifC05Formulas"
+    BSP = BS
+
+    def setup(ex):
+        stdlib.install(ex)
+        dom = field.install_real(ex, types=("gnark",))
+        A = dom.sym("A", nonzero=True, ctx=ex.ctx)
+        Dc = dom.sym("D", nonzero=True, ctx=ex.ctx)
+        ex.ctx.Dsym = Dc
+
+        def curve(ex_, tid):
+            p = ex_.prog
+            d = p.under(tid)
+            inner = d["elem"] if d["kind"] == "pointer" else tid
+            cells = []
+            for f in p.under(inner)["fields"]:
+                if f["name"] == "A":
+                    cells += [A]
+                elif f["name"] == "D":
+                    cells += [Dc]
+                else:
+                    cells += [ex_.zero_leaf(t) for t in p.layout(f["type"])]
+            obj = ex_.alloc(inner, label="CurveParams", cells=cells)
+            return ex_.alloc(tid, label="CurveParams ptr", cells=[obj]) if d["kind"] == "pointer" else obj
+        ex.global_override[BSP + ".CurveParams"] = curve
+        ex.global_override[BSP + ".IdentityExt"] = lambda ex_, tid: ex_.alloc(tid, label="IdentityExt (0,1,1,0)", cells=[dom.const(0), dom.const(1), dom.const(1), dom.const(0)])
+
+        def sym(ex_, args, ins):
+            n = _name(ex_, args[0])
+            v = dom.sym("V_" + n, nonzero=(n == "z1"), ctx=ex_.ctx)
+            ex_.ctx.vars[n] = (v.t, 0, False)
+            return (v,)
+        ex.intrinsics[BSP + ".c05fp"] = sym
+    ctx, ex = D.execute(PROGF, BSP + "." + h, intmode="bv", params={}, setup=setup, harness_pkgs=[BSP], unwind=1000, prune=False)
+    g = lambda n: [v for (l, gg, v) in ctx.notes if l == n][0]
+    x1, y1, z1, x2, y2 = [ctx.vars[n][0] for n in ("x1", "y1", "z1", "x2", "y2")]
+    Dv = ctx.Dsym.t
+    sX, sY, sZ, sT = [c.t for c in g("sum")]
+    ctx.add_fact(sZ != 0)
+    ctx.add_fact(1 + Dv * x1 * x2 * y1 * y2 != 0)
+    ctx.add_fact(1 - Dv * x1 * x2 * y1 * y2 != 0)
+
+    def idob(label, lhs, rhs):
+        o = Obligation(label, lhs != rhs, "assert")
+        o.ident = (lhs, rhs)
+        return o
+    obs = [idob("ExtendedAddNormalized: X3/Z3 = (x1 y2 + y1 x2)/(1 + d x1 x2 y1 y2)", sX / sZ, (x1 * y2 + y1 * x2) / (1 + Dv * x1 * x2 * y1 * y2)),
+           idob("ExtendedAddNormalized: Y3/Z3 = (y1 y2 + 5 x1 x2)/(1 - d x1 x2 y1 y2)  (a = -5)", sY / sZ, (y1 * y2 + 5 * x1 * x2) / (1 - Dv * x1 * x2 * y1 * y2)),
+           idob("ExtendedAddNormalized keeps the extended invariant T3 Z3 = X3 Y3", sT * sZ, sX * sY)]
+    p1 = [c.t for c in g("p1")]
+    for nm, got, want in (("X", p1[0], x1 * z1), ("Y", p1[1], y1 * z1), ("Z", p1[2], z1), ("T", p1[3], x1 * y1 * z1)):
+        obs.append(idob("PointExtendedFromProj: %s coordinate (T = XY/Z)" % nm, got, want))
+    ng = [c.t for c in g("neg")]
+    for nm, got, want in (("X", ng[0], -x2), ("Y", ng[1], y2), ("T", ng[2], -(x2 * y2))):
+        obs.append(idob("PointExtendedNormalized.Neg: %s coordinate" % nm, got, want))
+    idn = [c.t for c in g("ident")]
+    for nm, got, want in zip("XYZT", idn, (0, 1, 1, 0)):
+        obs.append(idob("IdentityExt %s coordinate" % nm, got, z3.RealVal(want)))
+    recs = D.discharge_all(ctx, extra=obs, timeout_ms=60000)
+    return {"group": "curve formulas (ExtendedAddNormalized, PointExtendedFromProj, Neg)", "recs": recs, "info": ctx_info(ctx), "harness": h, "params": {}}
+
+
 def run(tier, seed):
     global PROG, BUILD
     rep = Report("C05", tier, seed)
@@ -200,7 +272,8 @@ def run(tier, seed):
         return rep.finish()
     rep.bounds = {"scalar": "all four limbs symbolic, every regular value < r", "window sizes": [8, 16],
                   "table": "given by specification: entry [k][j] = (j+1)*kappa_k with one generator symbol per window (index range is an obligation)",
-                  "outside": "table construction (NewPrecompPoint) and the curve formulas are separate groups; MSM lengths"}
+                  "formulas": "ExtendedAddNormalized / PointExtendedFromProj / Neg on symbolic coordinates against the twisted Edwards addition law (a = -5), identities by polynomial normal form",
+                  "outside": "table construction (NewPrecompPoint, not built); MSM lengths beyond the listed ones"}
     rep.assumptions = ["fr.fromMont is the UNMONT bijection onto [0,r) (C15)", "ExtendedAddNormalized / PointExtendedNormalized.Neg are group addition / negation (law identities are a separate group)",
                        "kappa_k stands for 2^(w*k)*G_i: connection between table index expression and construction stated, not re-proved"]
 
@@ -225,6 +298,17 @@ def run(tier, seed):
         rep.add(item["group"], item["recs"], _Info(item["info"]), key_prefix=item["harness"], replay=std_replay(BUILD, BW, BW + "." + item["harness"], item["params"]))
     ns = [0, 1, 2, 5, 6] if tier == "quick" else [0, 1, 2, 3, 5, 6, 7, 16, 32]
     run_jobs(rep, job_msm, [(n,) for n in ns], name=lambda a: "MSM n=%d" % a, on_result=on_msm)
+    global PROGF, BUILDF
+    try:
+        from gosmt.field import GNARK_FR
+        BUILDF = D.Build("c05f", [BS], [BS + ".VerifC05Formulas"], allow_extra=[GNARK_FR])
+        PROGF = BUILDF.load()
+
+        def on_f(a, item):
+            rep.add(item["group"], item["recs"], _Info(item["info"]), key_prefix=item["harness"], replay=None)
+        run_jobs(rep, job_formulas, [()], name=lambda a: "formulas", on_result=on_f)
+    except Exception as e:  # noqa
+        rep.inconclusive_group("curve formulas", str(e)[:300])
     return rep.finish(explanation="PrecompPoint.ScalarMul executed from SSA (bit-vectors) for a fully symbolic scalar; per-window closed-form signed-digit reference.")
 
 
